@@ -39,6 +39,13 @@ def gen(ctx):
         g = [[int(rng.random() < p) for _ in range(C)] for _ in range(R)]
         yield dict(kind="life", hist=[g], T=rng.randint(1, 5), memo=rng.choice(["False", "True", "recursive_lit"]),
                    dtype=rng.choice(["int32", "int32", "uint8", "int8", "int64", "bool", "float64", "uint16"]))
+    for _ in range(ctx.n(80, 800)):
+        # Life continued from a history of several frames (only the last one matters), every mode, fixed and callable T
+        R, C = rng.randint(3, 8), rng.randint(3, 8)
+        H = rng.randint(2, 4)
+        hist = [[[int(rng.random() < 0.4) for _ in range(C)] for _ in range(R)] for _ in range(H)]
+        yield dict(kind="life", hist=hist, T=rng.randint(2, 5), memo=rng.choice(["False", "True", "recursive_lit", "recursive_lit"]),
+                   dyn=int(rng.random() < 0.3))
     for _ in range(ctx.n(60, 600)):
         # a warm-up call with the SAME rule function under other settings, then Life proper (one process)
         R, C = rng.randint(3, 8), rng.randint(3, 8)
@@ -84,7 +91,9 @@ def run(c):
         wca = ca[-1:].copy() if w["same_grid"] else np.roll(ca[-1:], 1, axis=2).copy()
         cpl.evolve2d(wca, timesteps=w["T"], apply_rule=cpl.game_of_life_rule, r=1, neighbourhood=w["nb"],
                      memoize=ev1.memo_value(w["memo"]))
-    return cpl.evolve2d(ca, timesteps=_T(c), apply_rule=cpl.game_of_life_rule, r=1, neighbourhood="Moore",
+    T = _T(c)
+    ts = (lambda a, t: t < T) if c.get("dyn") else T
+    return cpl.evolve2d(ca, timesteps=ts, apply_rule=cpl.game_of_life_rule, r=1, neighbourhood="Moore",
                         memoize=ev1.memo_value(c["memo"]))
 
 
@@ -124,7 +133,10 @@ def oracle(c):
     if res.dtype != np.dtype(c.get("dtype", "int32")):
         return "result dtype %s differs from the automaton's %s" % (res.dtype, c.get("dtype", "int32"))
     grids = np.asarray(res).astype(np.int64).tolist()
-    for t in range(1, len(grids)):
+    H = len(_hist(c))
+    if grids[:H] != _hist(c) or len(grids) != H + _T(c) - 1:
+        return "result is not the given frames followed by T-1 new ones"
+    for t in range(H, len(grids)):
         if not np.array_equal(life_step(grids[t - 1]), np.array(grids[t])):
             return "step %d is not the Life update on the torus" % t
     if c["kind"] == "pattern":
